@@ -9,6 +9,8 @@ import (
 	"testing"
 
 	"github.com/libp2p/go-libp2p/core/crypto"
+	cryptopb "github.com/libp2p/go-libp2p/core/crypto/pb"
+	"google.golang.org/protobuf/proto"
 
 	"berty.tech/weshnet/v2/internal/vharness"
 	"berty.tech/weshnet/v2/pkg/protocoltypes"
@@ -60,6 +62,13 @@ func TestVerifC11(t *testing.T) {
 	secpBlob, _ := crypto.MarshalPrivateKey(secpPriv)
 	edPriv, _, _ := crypto.GenerateEd25519Key(crand.Reader)
 	edBlob, _ := crypto.MarshalPrivateKey(edPriv)
+	// the SAME Ed25519 key in the other serialisation UnmarshalPrivateKey accepts (legacy 96 bytes:
+	// seed | public | public): two equal keys that differ as bytes
+	edRaw, _ := edPriv.Raw()
+	edAlt, _ := proto.Marshal(&cryptopb.PrivateKey{Type: cryptopb.KeyType_Ed25519.Enum(), Data: append(append([]byte(nil), edRaw...), edRaw[32:]...)})
+	if k, err := crypto.UnmarshalPrivateKey(edAlt); err != nil || !k.Equals(edPriv) {
+		edAlt = edBlob // this libp2p no longer accepts the legacy form: nothing to try
+	}
 
 	for it := 0; it < nHist; it++ {
 		nStores := 2 + rng.Intn(2)
@@ -251,6 +260,8 @@ func TestVerifC11(t *testing.T) {
 					{"(OImport BGarbage (BKey (Fresh 7)))", []byte{1, 2, 3}, edBlob},
 					{"(OImport BNotEd25519 (BKey (Fresh 7)))", rsaBlob, edBlob},
 					{"(OImport (BKey (Fresh 7)) BNotEd25519)", edBlob, secpBlob},
+					{"(OImport (BKey (Fresh 7)) (BKey (Fresh 7)))", edBlob, edAlt},
+					{"(OImport (BKey (Fresh 7)) (BKey (Fresh 7)))", edAlt, edBlob},
 				}
 				kx := kinds[rng.Intn(len(kinds))]
 				ops = append(ops, fmt.Sprintf("WOp %d %s", i, kx.coq))
@@ -258,7 +269,7 @@ func TestVerifC11(t *testing.T) {
 					obs = append(obs, "CRefused")
 				} else {
 					obs = append(obs, "CDone")
-					fail("malformed or non-Ed25519 key blob imported", kx.coq)
+					fail("malformed or non-Ed25519 key blob imported, or the same key as account and proof key", kx.coq)
 				}
 				nontrivial = true
 			}
